@@ -817,6 +817,176 @@ fn window_scenarios(rep: &mut Report, prop: &str, args: &Args, rounds: u64) {
     }
 }
 
+
+// ------------------------------------------------------------------------------------------------
+// producers racing on a bounded queue while the wrapped sink is blocked for the whole run (C10)
+// ------------------------------------------------------------------------------------------------
+
+/// The worker is parked inside the (closed) gate holding one metric; then P producers released by a barrier
+/// hammer `emit`. Every emit must return while the gate stays closed, exactly `capacity` of them with Ok
+/// (unbounded: all), and nothing may surface from the wrapped sink.
+fn blocked_case(rep: &mut Report, prop: &str, args: &Args, cs: u64) {
+    let mut rng = Rng::new(cs);
+    let cap = match rng.below(8) {
+        0 => None,
+        1 => Some(1usize),
+        2 => Some(2),
+        3 => Some(3),
+        _ => Some(rng.range(1, 12) as usize),
+    };
+    let producers = *rng.pick(&[2usize, 2, 3, 4, 8, 16]);
+    let per = rng.range(1, 6) as usize + cap.unwrap_or(4) / producers;
+    let big = rng.chance(1, 3); // large metrics widen the window between a room check and the send
+    rep.eval();
+    let sh = Shared::new(true);
+    set_current(None);
+    let q = match cap {
+        Some(c) => QueuingMetricSink::with_capacity(GatedSink { sh: sh.clone() }, c),
+        None => QueuingMetricSink::from(GatedSink { sh: sh.clone() }),
+    };
+    let cfg = jobj! {"capacity" => cap.map(|c| c.to_string()).unwrap_or_else(|| "unbounded".into()), "producers" => producers, "emits_per_producer" => per, "large_metrics" => big};
+    let mut report = |rep: &mut Report, props: &[&str], class: &str, detail: String, log: &[Ev]| {
+        for p in props {
+            if *p == prop {
+                rep.violation(Violation {
+                    property: p.to_string(),
+                    rule: "R5".into(),
+                    class: class.into(),
+                    detail: format!("[blocked-sink {}] {}", cfg.to_string(), detail),
+                    replay_args: args.to_vec_with(&[("case-seed", cs.to_string()), ("cases", "1".into())]),
+                    trace: jobj! {"config" => cfg.clone(), "event_log(first 200)" => log_json(log, 200)},
+                });
+            } else {
+                rep.obs("other_property_rule_hits", 1);
+            }
+        }
+    };
+    // park the worker inside the sink
+    if q.emit("first|ok").is_err() {
+        report(rep, &["C10"], "refused-with-room", "the very first emit on an empty queue was refused".into(), &sh.log());
+        return;
+    }
+    if let Err(st) = await_log(&sh, |st| st.log.iter().any(|e| matches!(e, Ev::Enter { .. }))) {
+        if st.is_verdict() {
+            report(rep, &["C08"], "accepted-never-delivered", st.describe(), &sh.log());
+        } else {
+            rep.inconclusive(st.describe());
+        }
+        adopt_zombies();
+        return;
+    }
+    let barrier = Arc::new(Barrier::new(producers));
+    let done = Arc::new(AtomicU64::new(0));
+    let oks = Arc::new(AtomicU64::new(0));
+    let surfaced = Arc::new(std::sync::Mutex::new(Vec::<String>::new()));
+    let tids = Arc::new(std::sync::Mutex::new(Vec::<u32>::new()));
+    let mut joins = Vec::new();
+    for p in 0..producers {
+        let h = q.clone();
+        let (barrier, done, oks, surfaced, tids) = (barrier.clone(), done.clone(), oks.clone(), surfaced.clone(), tids.clone());
+        joins.push(std::thread::spawn(move || {
+            let tid = procmon::register_current();
+            tids.lock().unwrap().push(tid);
+            let pad = if big { "y".repeat(200_000) } else { String::new() };
+            barrier.wait();
+            for k in 0..per {
+                let m = format!("b.p{}.n{}{}|ok", p, k, pad);
+                match panics::guard(|| h.emit(&m)) {
+                    Ok(Ok(n)) => {
+                        if n != m.len() {
+                            surfaced.lock().unwrap().push(format!("Ok({}) for {} bytes", n, m.len()));
+                        }
+                        oks.fetch_add(1, Ordering::SeqCst);
+                    }
+                    Ok(Err(e)) => {
+                        if e.to_string().contains("scripted") {
+                            surfaced.lock().unwrap().push(e.to_string());
+                        }
+                    }
+                    Err(pm) => surfaced.lock().unwrap().push(format!("PANIC {}", pm)),
+                }
+            }
+            done.fetch_add(1, Ordering::SeqCst);
+            drop(h);
+        }));
+    }
+    // all producers must finish while the gate is CLOSED. Failure is decided logically: the unfinished producer
+    // threads are asleep with unchanged context-switch counters - nothing but the (closed) gate could wake them.
+    let t0 = std::time::Instant::now();
+    let mut stable = 0u32;
+    let mut stable_since = std::time::Instant::now();
+    let mut last: Vec<(u32, Option<procmon::TaskStatus>)> = Vec::new();
+    let mut blocked: Option<String> = None;
+    while done.load(Ordering::SeqCst) < producers as u64 {
+        std::thread::sleep(Duration::from_millis(if stable < 3 { 1 } else { 10 }));
+        let cur: Vec<(u32, Option<procmon::TaskStatus>)> = tids.lock().unwrap().iter().map(|t| (*t, procmon::task_status(*t))).collect();
+        let asleep = !cur.is_empty() && cur.iter().all(|(_, s)| s.as_ref().map(|s| s.state == 'S').unwrap_or(true));
+        if asleep && cur == last && cur.len() == producers {
+            stable += 1;
+        } else {
+            stable = 0;
+            stable_since = std::time::Instant::now();
+            last = cur;
+        }
+        if stable >= PARK_SAMPLES && stable_since.elapsed() >= PARK_SPAN {
+            blocked = Some(format!(
+                "{} of {} producers never returned from emit while the wrapped sink was blocked: their threads are in state S with unchanged context-switch counters over {} samples / {} ms",
+                producers as u64 - done.load(Ordering::SeqCst), producers, stable, stable_since.elapsed().as_millis()
+            ));
+            break;
+        }
+        if t0.elapsed() > WATCHDOG {
+            rep.inconclusive("blocked-sink case: watchdog expired while producers were still running");
+            break;
+        }
+    }
+    let ok_n = oks.load(Ordering::SeqCst);
+    let finished_all = done.load(Ordering::SeqCst) == producers as u64;
+    // release everything so that the threads can be joined
+    sh.open_all();
+    for j in joins {
+        let _ = j.join();
+    }
+    for t in tids.lock().unwrap().iter() {
+        procmon::unregister(*t);
+    }
+    rep.obs("blocked_sink_races", 1);
+    rep.obs("emits_while_sink_blocked", (producers * per) as u64);
+    rep.distinct(&format!("blocked|{:?}|P{}|big{}", cap, producers, big));
+    if let Some(b) = blocked {
+        report(rep, &["C10"], "emit-blocked", b, &sh.log());
+    } else if finished_all {
+        let want = match cap {
+            None => (producers * per) as u64,
+            Some(c) => (c as u64).min((producers * per) as u64),
+        };
+        if ok_n > want {
+            report(rep, &["C10"], "capacity-exceeded", format!("with the worker parked holding one metric, {} further emits were accepted by a queue of capacity {:?}", ok_n, cap), &sh.log());
+        } else if ok_n < want {
+            report(rep, &["C10"], if cap.is_none() { "unbounded-refused" } else { "refused-with-room" }, format!("with the worker parked holding one metric, only {} of the first {} emits were accepted by a queue of capacity {:?}", ok_n, want, cap), &sh.log());
+        } else {
+            rep.obs("exact_capacity_under_race_checks", 1);
+        }
+    }
+    let sf = surfaced.lock().unwrap().clone();
+    if let Some(x) = sf.first() {
+        report(rep, &["C10"], "wrapped-error-surfaced", format!("an emit result carried {}", x), &sh.log());
+    }
+    // everything accepted is delivered, then release
+    let total = ok_n as usize + 1;
+    let r = await_log(&sh, |st| st.log.iter().filter(|e| matches!(e, Ev::Exit { .. })).count() >= total);
+    drop(q);
+    let r2 = r.and_then(|_| await_log(&sh, |st| st.log.iter().any(|e| matches!(e, Ev::SinkDrop { .. })))).and_then(|_| await_no_library_thread());
+    if let Err(st) = r2 {
+        if st.is_verdict() {
+            report(rep, &["C08", "C09"], "accepted-never-delivered", st.describe(), &sh.log());
+            adopt_zombies();
+        } else {
+            rep.inconclusive(st.describe());
+        }
+    }
+}
+
 fn main() {
     let args = Args::from_env();
     panics::install_hook();
@@ -829,6 +999,16 @@ fn main() {
     let cases = args.u64("cases", 20);
     match mode.as_str() {
         "windows" => window_scenarios(&mut rep, &prop, &args, cases),
+        "blocked" => {
+            let only = args.get("case-seed").map(|s| s.parse::<u64>().unwrap());
+            for i in 0..cases {
+                let cs = only.unwrap_or_else(|| mix(&[seed, 0xB10C, shard, i]));
+                blocked_case(&mut rep, &prop, &args, cs);
+                if only.is_some() || rep.violation_count >= 6 || rep.inconclusive.len() >= 3 {
+                    break;
+                }
+            }
+        }
         "conc" => {
             let only = args.get("case-seed").map(|s| s.parse::<u64>().unwrap());
             for i in 0..cases {
